@@ -78,7 +78,16 @@ def gen_template(rng, good=None):
         cpd0.append(cpd(v, p0, card[v], [card[u] for u in p0]))
         p1 = [k + u for u, w in intra if w == v] + [u for u, w in inter if w == v]
         cpd1.append(cpd(k + v, p1, card[v], [card[u % k] for u in p1]))
-    return {"k": k, "card": card, "intra": intra, "inter": inter, "cpd0": cpd0, "cpd1": cpd1, "good": good}
+    # state names: None = the default 0..k-1; otherwise every CPD of the variable (both slices) declares these names and evidence
+    # is given by name
+    lk = rng.choice([None, None, "permint", "str"])
+    labels = None if lk is None else [gen.state_labels(rng, c, lk) for c in card]
+    return {"k": k, "card": card, "intra": intra, "inter": inter, "cpd0": cpd0, "cpd1": cpd1, "good": good, "labels": labels}
+
+
+def ev_state(case, v, s):
+    """the observed state as handed to the library: its declared name if the template declares names, else the number"""
+    return s if case.get("labels") is None else gen.lab(case["labels"][v][s])
 
 
 def build_dbn(tm):
@@ -95,13 +104,17 @@ def build_dbn(tm):
     def node(i):
         return (VN[i % k], i // k)
     cpds = []
+    labels = tm.get("labels")
     for f in tm["cpd0"] + tm["cpd1"]:
         sc = f["scope"]
         ccard = f["card"][0]
         ncols = len(f["vals"]) // ccard
         table = [[float(Fraction(f["vals"][i * ncols + j])) for j in range(ncols)] for i in range(ccard)]
+        kw = {}
+        if labels is not None:
+            kw["state_names"] = {node(i): [gen.lab(l) for l in labels[i % k]] for i in sc}
         cpds.append(TabularCPD(node(sc[0]), ccard, table, evidence=[node(p) for p in sc[1:]] or None,
-                               evidence_card=f["card"][1:] or None))
+                               evidence_card=f["card"][1:] or None, **kw))
     dbn.add_cpds(*cpds)
     return dbn
 
@@ -117,7 +130,7 @@ def gen_query(rng, tier):
     if not any(t == T for _, t in q):
         q[0] = (q[0][0], T)
     rest = [x for x in allnodes if x not in q]
-    ev = rng.sample(rest, min(len(rest), rng.choice([0, 0, 1, 2])))
+    ev = rng.sample(rest, min(len(rest), rng.choice([0, 0, 1, 2, 3, 4])))
     tm["T"] = T
     tm["q"] = [list(x) for x in q]
     tm["ev"] = [[v, t, rng.randrange(tm["card"][v])] for v, t in ev]
@@ -130,13 +143,13 @@ def run_query(case, drv):
     k, T = case["k"], case["T"]
     q = [t * k + v for v, t in case["q"]]
     ev = [[t * k + v, s] for v, t, s in case["ev"]]
-    tags = dict(k=k, T=T, nev=len(ev), good=case["good"], mode=case["mode"])
+    tags = dict(k=k, T=T, nev=len(ev), good=case["good"], mode=case["mode"], named=case.get("labels") is not None)
     try:
         dbn = build_dbn(case)
         dbn.initialize_initial_state()
         inf = DBNInference(dbn)
         variables = [(VN[v], t) for v, t in case["q"]]
-        evidence = {(VN[v], t): s for v, t, s in case["ev"]} or None
+        evidence = {(VN[v], t): ev_state(case, v, s) for v, t, s in case["ev"]} or None
         if case["mode"] == "forward":
             res = inf.forward_inference(variables, evidence)
         else:
@@ -183,7 +196,7 @@ def gen_history(rng, tier):
         if qv is None or rng.random() < .35:
             qv = rng.choice([x for x in allnodes if x[1] >= 1] or allnodes)
             cand = [x for x in free if x != qv]
-            evv = rng.sample(cand, min(len(cand), rng.choice([1, 1, 2])))
+            evv = rng.sample(cand, min(len(cand), rng.choice([1, 1, 2, 3, 4])))      # insertion order of the evidence dict is random
         steps.append({"q": [list(qv)], "ev": [[v, t, rng.randrange(tm["card"][v])] for v, t in evv],
                       "mode": rng.choice(["query", "query", "forward"])})
     tm["T"] = T
@@ -204,7 +217,7 @@ def run_history(case, drv):
     for i, st in enumerate(case["steps"]):
         (v, t), = st["q"]
         variables = [(VN[v], t)]
-        evidence = {(VN[a], b): s for a, b, s in st["ev"]} or None
+        evidence = {(VN[a], b): ev_state(case, a, s) for a, b, s in st["ev"]} or None
         ev = [[b * k + a, s] for a, b, s in st["ev"]]
         m = drv.call("dbn_posterior", k=k, cpd0=case["cpd0"], cpd1=case["cpd1"], cards=case["card"], T=T, q=[t * k + v],
                      ev=ev if st["mode"] == "query" else [e for e in ev if e[0] // k <= t])
